@@ -45,9 +45,9 @@ def _writePotential(potential, cutoff, gridPoints, meshResolution, out ):
 
   #First, do the energies
   l = []
-  r=0.0
   for i in range(gridPoints):
-    r += meshResolution
+    # (k*delpot rather than a running sum: the round-off of a sum grows with the row number)
+    r = (i+1) * meshResolution
     l.append(_inFieldRange(potential.energy(r)))
 
     if len(l) == 4:
@@ -58,9 +58,8 @@ def _writePotential(potential, cutoff, gridPoints, meshResolution, out ):
 
   #Now, do the forces
   l = []
-  r = 0.0
   for i in range(gridPoints):
-    r += meshResolution
+    r = (i+1) * meshResolution
     l.append(_inFieldRange(_calculateForce(potential, r)))
 
     if len(l) == 4:
